@@ -26,6 +26,8 @@ def scan_assumptions(reg, keys):
     for k, c in reg.items():
         if c.trusted and c.variant is None:
             out.append(f"contract of {c.qualname} assumed at call sites: {c.trusted}")
+        for cl in getattr(c, "assumed_", []):
+            out.append(f"axiom on {c.qualname}: {cl.name}")
     return out
 
 
